@@ -47,8 +47,21 @@ def hash_str(s):
     return int(hashlib.sha1(s.encode()).hexdigest()[:16], 16)
 
 
+def load_factor():
+    """>= 1: how much longer than on an idle machine a run may take now (1-minute load average against the
+    number of cores).  Watchdog times are multiplied by it, so that an expired watchdog means a blocked
+    process and not a slow machine; a real hang still expires, only later."""
+    try:
+        l1 = os.getloadavg()[0]; n = os.cpu_count() or 1
+    except OSError:
+        return 1.0
+    return max(1.0, min(8.0, 2.0 * l1 / n))
+
+
 def sh(cmd, timeout=None, cwd=None, env=None, inp=None):
-    """run a command, return (rc, stdout+stderr text); rc -9 on timeout"""
+    """run a command, return (rc, stdout+stderr text); rc -9 on timeout (scaled by load_factor())"""
+    if timeout is not None:
+        timeout = timeout * load_factor()
     try:
         p = subprocess.run(cmd, shell=isinstance(cmd, str), cwd=cwd, env=env, input=inp,
                            stdout=subprocess.PIPE, stderr=subprocess.STDOUT, timeout=timeout)
